@@ -6,12 +6,23 @@ Two explorations, one oracle (a dict model of the documented selection rule):
   discriminating instances x entry points {validator_for (with / without
   default=), jsonschema.validate (with / without cls=), cli.run (with / without
   --validator)};
-* histories (LEVEL model_checking): every sequence of registrations up to the
-  depth bound over a menu of validates() / create(version=) / extend(version=) /
-  re-registration operations, executed on the real global registries
-  (snapshot / restore per history, restoration verified by re-probing); after
-  each history the whole `$schema` table, the version-name table and the
-  behaviour behind each id are compared with the model.
+* histories (LEVEL model_checking): every sequence up to the depth bound over a
+  menu of operations that are registrations -- every way a class can reach
+  validates(): create(version=), extend(version=), validates() on a class made
+  by create() / extend() whose META_SCHEMA was reassigned afterwards, on a
+  Python subclass of a draft class with / without a META_SCHEMA of its own, on a
+  hand-written class, on an already registered class; under a new id, an id that
+  is already registered (registry size unchanged) or no id -- or *lookups*
+  (validator_for over the whole table, validate() / the CLI over every id with
+  and without '#', validator_for of one id), so that lookups happen before and
+  between registrations.  Each history runs in its own forked child of a fresh
+  interpreter (mc.explore.isolated: nothing was looked up or registered before
+  its first operation), on the real global registries (snapshot / restore per
+  history, restoration verified by identity of every entry); after the last
+  operation -- every prefix is a history of its own -- the whole `$schema` table,
+  the version-name table and what validate() and the CLI do behind each id
+  (both spellings) are compared with the model; what a lookup operation answers
+  is compared too.
 """
 import io
 import itertools
@@ -20,11 +31,14 @@ import os
 import re
 import shutil
 import tempfile
+import traceback
 import warnings
 
 import jsonschema
 from jsonschema import cli, exceptions, validators
 
+from mc.core import harness
+from mc.explore import isolated
 from mc.ref import cli as climodel
 
 ID = "C20"
@@ -59,12 +73,16 @@ class Model(object):
         self.names = {"draft%d" % d: c for d, c in DRAFTS.items()}
         self.ids = {norm(u): DRAFTS[d] for d, u in DRAFT_IDS.items()}
         self.ever = list(DRAFTS.values())       # every class ever registered (for describing a wrong answer)
+        self.former = {}                        # normalised id -> classes that held it before the present one
 
     def register(self, version, cls, own_id):
         self.names[version] = cls
         self.ever.append(cls)
         if own_id:
-            self.ids[norm(own_id)] = cls
+            key = norm(own_id)
+            if key in self.ids and self.ids[key] is not cls:
+                self.former.setdefault(key, []).append(self.ids[key])
+            self.ids[key] = cls
 
     def select(self, schema, default=LATEST):
         """-> (class, DeprecationWarning expected)"""
@@ -318,8 +336,11 @@ def selection_problem(obs, warned, schema_warned, exp_cls, exp_warn, model, sche
             want = "the-default"
         else:
             want = "the-class-registered-for-the-id"
+        former = [] if want != "the-class-registered-for-the-id" else model.former.get(norm(schema["$schema"]), [])
         if default is not None and got is default:
             seen = "the-callers-default"
+        elif any(got is c for c in former):
+            seen = "a-class-formerly-registered-for-the-id"
         elif got is LATEST:
             seen = "the-latest-draft"
         elif any(got is c for c in model.ever):
@@ -334,14 +355,14 @@ def selection_problem(obs, warned, schema_warned, exp_cls, exp_warn, model, sche
     return None
 
 
-def check_selection(model, schema):
+def check_selection(model, schema, plain_only=False):
     """validator_for with and without default=; -> list of (entry, problem, detail).
     A default= variant that shows the same problem as the plain call, or as the other default=
     variant, is dropped (it shrinks to it)."""
     probs = []
     seen = set()
     for entry, default in (("validator_for", None), ("validator_for-default", SENTINEL),
-                           ("validator_for-default", jsonschema.Draft3Validator)):
+                           ("validator_for-default", jsonschema.Draft3Validator))[:1 if plain_only else 3]:
         if default is None:
             obs, w, sw = recorded(lambda: validators.validator_for(schema))
             exp_cls, exp_warn = model.select(schema)
@@ -421,57 +442,234 @@ def check_cli(model, ws, schema, lbl, vname):
 
 
 # --------------------------------------------------------------- histories ---
+# Every history runs in its own forked child of a fresh interpreter (mc.explore.isolated): it starts
+# from exactly the state a process has after `import jsonschema` -- no `$schema` was ever looked up,
+# nothing was registered -- so lookups are operations of the history like registrations are, and no
+# history can reach another one.  A history is checked once, after its last operation; every prefix is
+# a history of its own (replayed from the pristine state), so every step of every history is checked,
+# without the check's own lookups standing between two operations.
 D4ID, D7ID, D3ID, D6ID = DRAFT_IDS[4], DRAFT_IDS[7], DRAFT_IDS[3], DRAFT_IDS[6]
 ID_OF_ID = lambda s: s.get("id", "") if isinstance(s, dict) else ""     # noqa: E731
+ID_OF_DOLLAR = lambda s: s.get("$id", "") if isinstance(s, dict) else ""     # noqa: E731
+IDKEY = {3: "id", 4: "id", 6: "$id", 7: "$id"}      # how each draft spells the id of its own metaschema
+U = "http://c20.test/meta-%s"
 
-# (name, kind, parameters).  kind:
-#   validates : validators.validates(version)(fresh class from create(meta_schema={key: uri}, id_of matching key))
-#   create    : validators.create(meta_schema={key: uri}, version=version)
-#   extend    : validators.extend(DraftN, validators={"tag": ...}, version=version)   [shares DraftN's metaschema id]
-#   reuse     : validators.validates(version)(an already registered class)
-OPS_Q = [
-    ("validates a/$id", "validates", dict(version="c20-a", key="$id", uri="http://c20.test/meta-a#")),
-    ("validates b/id", "validates", dict(version="c20-b", key="id", uri="http://c20.test/meta-b")),
-    ("validates c/no-id", "validates", dict(version="c20-c", key=None, uri=None)),
-    ("create x", "create", dict(version="c20 x", key="$id", uri="http://c20.test/meta-x#")),
-    ("extend Draft4", "extend", dict(version="c20 y4", base=4)),
-    ("extend Draft7", "extend", dict(version="c20 y7", base=7)),
-    ("validates draft7 (existing name, new class, own id)", "validates",
-     dict(version="draft7", key="$id", uri="http://c20.test/meta-r#")),
-    ("validates draft3 := Draft6Validator (existing name, existing class)", "reuse", dict(version="draft3", base=6)),
+
+def OP(name, kind, **p):
+    return [name, kind, p]
+
+
+# [name, kind, parameters] (JSON-able: a violation stores the operations themselves).  Registration kinds --
+# the ways a class can reach validates():
+#   validates          validates(version)(create(meta_schema={key: uri}, id_of matching key))   [own new id]
+#   create             create(meta_schema={key: uri}, version=version)                          [own new id]
+#   extend             extend(DraftN, validators={"tag": ...}, version=version)                 [DraftN's id: registry size unchanged]
+#   reuse              validates(version)(DraftN)                                               [existing class, its id]
+#   extend-reassign    E = extend(DraftN, ...); E.META_SCHEMA = copy of DraftN's with its own id; validates(version)(E)
+#                      (the flow the extend() docstring describes)
+#   extend-modify      E = extend(DraftN, ...); E.META_SCHEMA[id key] = own id (in place; create() copied it); validates(version)(E)
+#   subclass-own-meta  @validates(version) class Sub(DraftN): META_SCHEMA = copy with its own id
+#   subclass-own-idof  @validates(version) class Sub(DraftN): META_SCHEMA = {"id": uri}; ID_OF = staticmethod(<reads "id">)
+#   subclass           @validates(version) class Sub(DraftN): (metaschema inherited)            [DraftN's id]
+#   handwritten        validates(version)(class written by hand with META_SCHEMA / ID_OF / check_schema / iter_errors)
+#   create-same-id     create(meta_schema=copy of DraftN's metaschema, ..., version=version)    [DraftN's id]
+#   create-reassign    C = create(meta_schema={"$id": uri0}); C.META_SCHEMA = {"$id": uri}; validates(version)(C)
+#                      [own id = uri; uri0 was never registered]
+# Lookup kinds:
+#   lookup-table       entry=validator_for: every spelling of the probe table (3 default= variants each)
+#                      entry=validate / cli: every id of the id table in both spellings
+#   lookup-one         validator_for({"$schema": uri}) once
+REG_Q = [
+    OP("validates a/$id", "validates", version="c20-a", key="$id", uri=U % "a#"),
+    OP("validates b/id", "validates", version="c20-b", key="id", uri=U % "b"),
+    OP("validates c/no-id", "validates", version="c20-c", key=None, uri=None),
+    OP("create x", "create", version="c20 x", key="$id", uri=U % "x#"),
+    OP("extend Draft4", "extend", version="c20 y4", base=4),
+    OP("extend Draft7", "extend", version="c20 y7", base=7),
+    OP("validates draft7 (existing name, new class, own id)", "validates", version="draft7", key="$id", uri=U % "r#"),
+    OP("validates draft3 := Draft6Validator (existing name, existing class)", "reuse", version="draft3", base=6),
+    OP("validates c20-back := Draft7Validator (new name, existing class)", "reuse", version="c20-back", base=7),
+    OP("extend Draft7, META_SCHEMA := copy with own $id, validates", "extend-reassign", version="c20 house", base=7,
+       uri="urn:c20:meta-h#"),
+    OP("subclass of Draft4Validator with own META_SCHEMA, @validates", "subclass-own-meta", version="c20 legacy",
+       base=4, uri=U % "l"),
+    OP("subclass of Draft6Validator, @validates", "subclass", version="c20 sub6", base=6),
+    OP("hand-written class with META_SCHEMA / ID_OF, validates", "handwritten", version="c20-w", key="$id", uri=U % "w#"),
+    OP("create(copy of Draft7's metaschema, version=)", "create-same-id", version="c20 s7", base=7),
+    OP("create p, META_SCHEMA := {$id: q}, validates", "create-reassign", version="c20 q", uri0=U % "p#", uri=U % "q#"),
 ]
-OPS_T = OPS_Q + [
-    ("create x again with a's id", "create", dict(version="c20 x", key="$id", uri="http://c20.test/meta-a#")),
-    ("create z/upper-case-scheme id", "create", dict(version="c20 z", key="$id", uri="HTTP://c20.test/meta-z")),
-    ("extend Draft3", "extend", dict(version="c20 y3", base=3)),
-    ("validates a again with another id", "validates", dict(version="c20-a", key="$id", uri="http://c20.test/meta-a2#")),
+LOOK_Q = [
+    OP("validator_for on the whole table", "lookup-table", entry="validator_for"),
+    OP("validate() on every id, both spellings", "lookup-table", entry="validate"),
+    OP("CLI on every id, both spellings", "lookup-table", entry="cli"),
+    OP("validator_for(draft-07 id as published)", "lookup-one", uri=D7ID),
+    OP("validator_for(draft-07 id without '#')", "lookup-one", uri=D7ID[:-1]),
+    OP("validator_for(meta-a#)", "lookup-one", uri=U % "a#"),
+    OP("validator_for(meta-a)", "lookup-one", uri=U % "a"),
 ]
-CUSTOM_URIS = sorted({o[2]["uri"] for o in OPS_T if o[2].get("uri")})
+OPS_Q = REG_Q + LOOK_Q
+REG_T = REG_Q + [
+    OP("create x again with a's id", "create", version="c20 x", key="$id", uri=U % "a#"),
+    OP("create z/upper-case-scheme id", "create", version="c20 z", key="$id", uri="HTTP://c20.test/meta-z"),
+    OP("extend Draft3", "extend", version="c20 y3", base=3),
+    OP("validates a again with another id", "validates", version="c20-a", key="$id", uri=U % "a2#"),
+    OP("extend Draft4, META_SCHEMA := copy with own id, validates", "extend-reassign", version="c20 house4", base=4,
+       uri=U % "h4"),
+    OP("extend Draft6, META_SCHEMA[$id] = own id in place, validates", "extend-modify", version="c20 m6", base=6,
+       uri=U % "m#"),
+    OP("subclass of Draft7Validator with own META_SCHEMA, @validates", "subclass-own-meta", version="c20 legacy7",
+       base=7, uri=U % "l7#"),
+    OP("subclass of Draft7Validator with own META_SCHEMA and own ID_OF, @validates", "subclass-own-idof",
+       version="c20 idof", base=7, uri=U % "i"),
+    OP("hand-written class, id key", "handwritten", version="c20-w2", key="id", uri=U % "w2"),
+    OP("create(copy of Draft4's metaschema, version=)", "create-same-id", version="c20 s4", base=4),
+    OP("subclass of Draft7Validator, @validates", "subclass", version="c20 sub7", base=7),
+]
+LOOK_T = LOOK_Q + [
+    OP("validator_for(draft-04 id as published)", "lookup-one", uri=D4ID),
+    OP("validator_for(draft-04 id without '#')", "lookup-one", uri=D4ID[:-1]),
+    OP("validator_for(an unknown URI)", "lookup-one", uri="http://example.com/unknown-schema#"),
+]
+OPS_T = REG_T + LOOK_T
+# explored one level deeper than the whole menu of the tier --
+# quick: the registrations that give a class a new id or re-use one (all of create / extend / validates /
+# re-registration, the reassigned metaschema, the copied metaschema) and lookups through validator_for and validate()
+Q3 = [0, 1, 2, 3, 4, 5, 6, 7, 8, 9, 13, 15, 16, 18, 21]
+# thorough: the operations that re-use an id, one that adds an id, and lookups
+CORE = [5, 8, 9, 13, 0, 15, 16, 18, 19, 20]
+MENUS = {"Q": OPS_Q, "T": OPS_T, "Q3": [OPS_Q[i] for i in Q3], "CORE": [OPS_Q[i] for i in CORE]}
+assert all(len(set(o[0] for o in ops)) == len(ops) for ops in MENUS.values())
+NAMES = {m: set(o[0] for o in ops) for m, ops in MENUS.items()}
+UNIT_HISTORIES = 90
 
 
-def apply_op(op, lbl, model):
-    """Run the operation on the real registries and mirror it in the model; -> the class."""
-    name, kind, p = op
+def menu_plan(thorough):
+    """[(menu, depth)]: every sequence of length 0..depth over the menu, except those an earlier entry covers."""
+    return [("CORE", 4), ("Q", 3), ("T", 2)] if thorough else [("Q3", 3), ("Q", 2)]
+
+
+def custom_uris(thorough):
+    """Every id an operation of the tier's menu may register, or gives a class before it is registered."""
+    return sorted({u for o in (OPS_T if thorough else OPS_Q) if not is_lookup(o)
+                   for u in (o[2].get("uri"), o[2].get("uri0")) if u})
+
+
+HIST_INSTANCES = [2]
+
+
+def is_lookup(spec):
+    return spec[1].startswith("lookup")
+
+
+def own_id_of(spec):
+    """The metaschema id the registered class has when validates() sees it (from what the operation built)."""
+    kind, p = spec[1], spec[2]
+    if kind in ("extend", "reuse", "subclass", "create-same-id"):
+        return DRAFT_IDS[p["base"]]
+    return p.get("uri")
+
+
+def role_of(spec):
+    kind, p = spec[1], spec[2]
+    b = p.get("base")
+    return {"validates": "validates-class", "create": "create-class",
+            "extend": "extension-of-Draft%sValidator" % b,
+            "extend-reassign": "extension-of-Draft%sValidator-with-reassigned-metaschema" % b,
+            "extend-modify": "extension-of-Draft%sValidator-with-modified-metaschema" % b,
+            "subclass-own-meta": "subclass-of-Draft%sValidator-with-own-metaschema" % b,
+            "subclass-own-idof": "subclass-of-Draft%sValidator-with-own-metaschema-and-ID_OF" % b,
+            "subclass": "subclass-of-Draft%sValidator" % b,
+            "handwritten": "hand-written-class",
+            "create-same-id": "create-class-with-Draft%sValidator-metaschema" % b,
+            "create-reassign": "create-class-with-reassigned-metaschema"}.get(kind)
+
+
+def make_handwritten(key, uri):
+    class HandWritten(object):
+        """Nothing of create(): the attributes validates() documents plus what validate() / the CLI call."""
+        META_SCHEMA = {key: uri}
+        ID_OF = staticmethod(ID_OF_ID if key == "id" else ID_OF_DOLLAR)
+        VALIDATORS = {"tag": _tag}
+        TYPE_CHECKER = TAG.TYPE_CHECKER
+
+        def __init__(self, schema, *args, **kwargs):
+            self.schema = schema
+
+        @classmethod
+        def check_schema(cls, schema):
+            pass
+
+        def iter_errors(self, instance, _schema=None):
+            yield exceptions.ValidationError("tag:%s" % getattr(type(self), "_c20_label", "?"))
+
+        def is_valid(self, instance, _schema=None):
+            return False
+
+        def validate(self, *args, **kwargs):
+            for e in self.iter_errors(*args, **kwargs):
+                raise e
+    return HandWritten
+
+
+def apply_op(spec, lbl, model):
+    """Run one registration on the real registries and mirror it in the model; -> the class."""
+    name, kind, p = spec
+    v = p["version"]
     if kind == "validates":
         meta = {} if p["key"] is None else {p["key"]: p["uri"]}
         kw = {"id_of": ID_OF_ID} if p["key"] == "id" else {}
-        c = make_tag_class(lbl, meta, role="validates-class", **kw)
-        r = validators.validates(p["version"])(c)
+        c = make_tag_class(lbl, meta, **kw)
+        r = validators.validates(v)(c)
         if r is not c:
             raise AssertionError("validates() did not return the class")
-        own = p["uri"]
     elif kind == "create":
-        c = make_tag_class(lbl, {p["key"]: p["uri"]}, role="create-class", version=p["version"])
-        own = p["uri"]
+        c = make_tag_class(lbl, {p["key"]: p["uri"]}, version=v)
     elif kind == "extend":
-        c = validators.extend(DRAFTS[p["base"]], validators={"tag": _tag}, version=p["version"])
-        c._c20_label = lbl
-        c._c20_role = "extension-of-Draft%dValidator" % p["base"]
-        own = DRAFT_IDS[p["base"]]
+        c = validators.extend(DRAFTS[p["base"]], validators={"tag": _tag}, version=v)
+    elif kind == "reuse":
+        c = validators.validates(v)(DRAFTS[p["base"]])
+    elif kind in ("extend-reassign", "extend-modify"):
+        base = DRAFTS[p["base"]]
+        c = validators.extend(base, validators={"tag": _tag})
+        if kind == "extend-reassign":
+            c.META_SCHEMA = dict(base.META_SCHEMA, **{IDKEY[p["base"]]: p["uri"]})
+        else:
+            c.META_SCHEMA[IDKEY[p["base"]]] = p["uri"]
+        validators.validates(v)(c)
+    elif kind in ("subclass-own-meta", "subclass-own-idof", "subclass"):
+        base = DRAFTS[p["base"]]
+        if kind == "subclass-own-meta":
+            @validators.validates(v)
+            class c(base):
+                META_SCHEMA = dict(base.META_SCHEMA, **{IDKEY[p["base"]]: p["uri"]})
+                VALIDATORS = dict(base.VALIDATORS, tag=_tag)
+        elif kind == "subclass-own-idof":
+            @validators.validates(v)
+            class c(base):
+                META_SCHEMA = {"id": p["uri"]}
+                ID_OF = staticmethod(ID_OF_ID)
+                VALIDATORS = dict(base.VALIDATORS, tag=_tag)
+        else:
+            @validators.validates(v)
+            class c(base):
+                VALIDATORS = dict(base.VALIDATORS, tag=_tag)
+    elif kind == "handwritten":
+        c = make_handwritten(p["key"], p["uri"])
+        validators.validates(v)(c)
+    elif kind == "create-same-id":
+        base = DRAFTS[p["base"]]
+        c = validators.create(meta_schema=dict(base.META_SCHEMA), validators=dict(base.VALIDATORS, tag=_tag),
+                              version=v, type_checker=base.TYPE_CHECKER, id_of=base.ID_OF)
+    elif kind == "create-reassign":
+        c = make_tag_class(lbl, {"$id": p["uri0"]})
+        c.META_SCHEMA = {"$id": p["uri"]}
+        validators.validates(v)(c)
     else:
-        c = validators.validates(p["version"])(DRAFTS[p["base"]])
-        own = DRAFT_IDS[p["base"]]
-    model.register(p["version"], c, own)
+        raise ValueError(kind)
+    if kind != "reuse":
+        c._c20_label = lbl
+        c._c20_role = role_of(spec)
+    model.register(v, c, own_id_of(spec))
     return c
 
 
@@ -489,12 +687,22 @@ def restore(snap):
     store.update(snap[1])
 
 
+def same_registries(a, b):
+    return all(set(x) == set(y) and all(x[k] is y[k] for k in x) for x, y in zip(a, b))
+
+
+def variants_of(u):
+    bare = u[:-1] if u.endswith("#") else u
+    scheme, rest = bare.split(":", 1)
+    other = scheme.lower() if scheme != scheme.lower() else scheme.upper()
+    return [bare, bare + "#", other + ":" + rest, bare + "/", bare + "#x"]
+
+
 def probe_table(thorough):
     """Every $schema spelling probed after each history."""
     sp = [s for s, _ in spellings(thorough)]
-    for u in CUSTOM_URIS:
-        bare = u[:-1] if u.endswith("#") else u
-        sp += [bare, bare + "#", ("HTTP" if bare.startswith("http") else "http") + bare[4:], bare + "/", bare + "#x"]
+    for u in custom_uris(thorough):
+        sp += variants_of(u)
     seen, out = set(), []
     for s in sp:
         if s not in seen:
@@ -503,36 +711,85 @@ def probe_table(thorough):
     return out
 
 
+def id_table(thorough):
+    """Every id a history may register (and the four drafts'), with and without the empty fragment."""
+    out = []
+    for u in [DRAFT_IDS[d] for d in sorted(DRAFT_IDS)] + custom_uris(thorough):
+        for s in variants_of(u)[:2]:
+            if s not in out:
+                out.append(s)
+    return out
+
+
 def malformed(sp):
     return sp != ABSENT and re.search(r"//[^/?#]*[\[\]]", sp) is not None
 
 
-def probe_state(model, table):
-    """-> list of (what, problem, detail) comparing the live registries with the model."""
-    probs = []
-    broken = set()
+def behaviour_schema(sp):
+    return {"$schema": sp, "tag": 1, "const": 1}
+
+
+def probe_selection(model, table, plain_only=False):
+    probs, broken = [], set()
     for sp in table:
         if malformed(sp):
             continue        # reported once by the static part (selection raises); not a registry matter
-        schema = build_schema(sp, {})
-        for entry, p, detail in check_selection(model, schema):
+        for entry, p, detail in check_selection(model, build_schema(sp, {}), plain_only):
             probs.append((entry, p, dict(detail, spelling=sp)))
             if entry == "validator_for":
                 broken.add(norm(sp) if sp != ABSENT else sp)
+    return probs, broken
+
+
+def probe_validate(model, ids, broken=()):
+    probs = []
+    for sp in ids:
+        if norm(sp) in broken:
+            continue        # validate() cannot be judged apart from a selection that is already wrong
+        prob, detail, _ = check_validate(model, behaviour_schema(sp), "tag", 2)
+        if prob:
+            probs.append(("validate", prob, dict(detail, spelling=sp)))
+    return probs
+
+
+def probe_cli(model, ids, ws, broken=()):
+    probs = []
+    for sp in ids:
+        if norm(sp) in broken:
+            continue
+        kind, detail, _ = check_cli(model, ws, behaviour_schema(sp), "tag", None)
+        if kind:
+            probs.append(("cli", kind, dict(detail, spelling=sp)))
+    return probs
+
+
+def probe_state(model, table, ids, ws):
+    """-> list of (what, problem, detail) comparing the live registries with the model: the whole `$schema`
+    table through validator_for (with / without default=), the version-name table, and validate() and the
+    command line behind every id the model holds, in both spellings (`ids`, every id any operation may ever
+    register, is what the lookup operations go through)."""
+    probs, broken = probe_selection(model, table)
     live = validators.validators
     if set(live) != set(model.names) or any(live[k] is not model.names[k] for k in model.names if k in live):
         probs.append(("version-names", "names-table-differs",
                       {"observed": {k: label(v) for k, v in live.items()},
                        "expected": {k: label(v) for k, v in model.names.items()}}))
-    # behaviour behind every id the model knows
-    for key, c in sorted(model.ids.items()):
-        if key in broken:
-            continue        # validate() cannot be judged apart from a selection that is already wrong
-        schema = {"$schema": key, "tag": 1, "const": 1}
-        prob, detail, _ = check_validate(model, schema, "tag", 2)
-        if prob:
-            probs.append(("validate", prob, dict(detail, spelling=key)))
+    held = [s for key in sorted(model.ids) for s in (key, key + "#")]
+    probs += probe_validate(model, held, broken)
+    probs += probe_cli(model, held, ws, broken)
     return probs
+
+
+def do_lookup(spec, model, table, ids, ws):
+    """A lookup as an operation of the history: what it answers is compared with the model as well."""
+    kind, p = spec[1], spec[2]
+    if kind == "lookup-one":
+        return [(e, q, dict(d, spelling=p["uri"])) for e, q, d in check_selection(model, {"$schema": p["uri"]}, True)]
+    if p["entry"] == "validator_for":
+        return probe_selection(model, table)[0]
+    if p["entry"] == "validate":
+        return probe_validate(model, ids)
+    return probe_cli(model, ids, ws)
 
 
 def canon(model):
@@ -555,74 +812,230 @@ class Placeholder(object):
         self._c20_role = r
 
 
-def model_only(ops, hist):
+def model_only(specs):
     """The same history applied to the model alone (no library call): used to number the states."""
     m = Model()
-    for j in hist:
-        _, kind, p = ops[j]
-        if kind == "validates":
-            m.register(p["version"], Placeholder("validates-class"), p["uri"])
-        elif kind == "create":
-            m.register(p["version"], Placeholder("create-class"), p["uri"])
-        elif kind == "extend":
-            m.register(p["version"], Placeholder("extension-of-Draft%dValidator" % p["base"]), DRAFT_IDS[p["base"]])
-        else:
-            m.register(p["version"], DRAFTS[p["base"]], DRAFT_IDS[p["base"]])
+    for spec in specs:
+        if is_lookup(spec):
+            continue
+        c = DRAFTS[spec[2]["base"]] if spec[1] == "reuse" else Placeholder(role_of(spec))
+        m.register(spec[2]["version"], c, own_id_of(spec))
     return m
 
 
-FIRST_HISTORY = {}      # canonical state -> first history (shortest, then lexicographic) reaching it; built by plan()
+HISTORIES = {}          # (thorough, plan entry) -> its histories
+FIRST_HISTORY = {}      # canonical state -> (plan entry, first history reaching it); built by plan()
 
 
-def number_states(ops, depth):
-    FIRST_HISTORY.clear()
+def menu_histories(mplan, k):
+    """Histories (tuples of operation indexes into the k-th menu) that the k-th entry of the plan contributes."""
+    menu, depth = mplan[k]
+    ops = MENUS[menu]
+    out = []
     for n in range(0, depth + 1):
-        for hist in itertools.product(range(len(ops)), repeat=n):
-            FIRST_HISTORY.setdefault(canon(model_only(ops, hist)), hist)
-    return len(FIRST_HISTORY)
+        for h in itertools.product(range(len(ops)), repeat=n):
+            if any(n <= d and all(ops[j][0] in NAMES[m] for j in h) for m, d in mplan[:k]):
+                continue        # the same sequence of operations is a history of an earlier entry
+            out.append(h)
+    return out
 
 
-def run_history(ops, hist, table):
-    """Execute one history on the live registries; -> (problems, canonical state, takeover?)"""
+def cached_histories(thorough, k):
+    if (thorough, k) not in HISTORIES:
+        HISTORIES[(thorough, k)] = menu_histories(menu_plan(thorough), k)
+    return HISTORIES[(thorough, k)]
+
+
+def number_states(mplan, thorough):
+    FIRST_HISTORY.clear()
+    total = 0
+    for k, (menu, depth) in enumerate(mplan):
+        ops = MENUS[menu]
+        for h in cached_histories(thorough, k):
+            total += 1
+            if h and is_lookup(ops[h[-1]]):
+                continue        # a lookup does not move the model: the state was numbered by the prefix
+            FIRST_HISTORY.setdefault(canon(model_only([ops[j] for j in h])), (k, h))
+    return total, len(FIRST_HISTORY)
+
+
+def inside_package(e):
+    pkg = os.path.dirname(os.path.realpath(jsonschema.__file__)) + os.sep
+    return any(os.path.realpath(fr.filename).startswith(pkg) for fr in traceback.extract_tb(e.__traceback__))
+
+
+def run_history(specs, table, ids, ws, pristine=None):
+    """Execute one history on the live registries (in a pristine child) -> JSON-able record.
+    pristine: the plain validator_for problems of the untouched registries (from the empty history), with
+    which the answers after the restoration are compared (the empty history compares with its own probe)."""
     snap = snapshot()
     model = Model()
+    probs = []
     try:
-        for step, j in enumerate(hist):
-            apply_op(ops[j], "step%d:%s" % (step, ops[j][0]), model)
-        probs = probe_state(model, table)
+        try:
+            for step, spec in enumerate(specs):
+                if is_lookup(spec):
+                    probs += do_lookup(spec, model, table, ids, ws)
+                else:
+                    apply_op(spec, "step%d:%s" % (step, spec[0]), model)
+            probs += probe_state(model, table, ids, ws)
+        except Exception as e:
+            if not inside_package(e):
+                raise
+            probs.append(("operation", "exception-%s-escaped" % type(e).__name__,
+                          {"exception": "%s: %s" % (type(e).__name__, str(e)[:200]),
+                           "frames": ["%s:%d %s" % (os.path.basename(fr.filename), fr.lineno, fr.name)
+                                      for fr in traceback.extract_tb(e.__traceback__)[-5:]]}))
         cs = canon(model)
         takeover = any(model.ids[norm(u)] is not DRAFTS[d] for d, u in DRAFT_IDS.items())
+        # validate() and the command line are functions of the selection: where validator_for is wrong for an id
+        # anywhere in this history, what they do behind that id is not reported on top (it shrinks to it)
+        bad = set(norm(d["spelling"]) for w, _, d in probs if w == "validator_for" and d["spelling"] != ABSENT)
+        probs = [x for x in probs if not (x[0] in ("validate", "cli") and norm(x[2]["spelling"]) in bad)]
     finally:
         restore(snap)
-    return probs, cs, takeover
+    if not same_registries(snap, snapshot()):
+        raise RuntimeError("registries not restored after the history %r" % ([s[0] for s in specs],))
+    again = [[w, p, d["spelling"]] for w, p, d in probe_selection(Model(), table, True)[0]]
+    if pristine is None and not specs:
+        pristine = [[w, p, d["spelling"]] for w, p, d in probs if w == "validator_for"]
+    return json.loads(harness.jdump({
+        "problems": [[w, p, d] for w, p, d in probs], "canon": cs, "takeover": takeover,
+        "plain_after_restore": again,
+        "answers_differ_after_restore": pristine is not None and again != pristine,
+        "probes": sum(1 for s in table if not malformed(s)) * 3 + 4 * len(model.ids)}))
 
 
-def hist_signature(ops, hist, what, problem):
-    kinds = "none" if not hist else "+".join(ops[j][1] + ("-" + str(ops[j][2]["base"]) if "base" in ops[j][2] else "") for j in hist)
+def coarse_kind(spec):
+    """For signatures: the way the class reached validates() (whichever draft it was derived from), or `lookup`."""
+    return "lookup" if is_lookup(spec) else spec[1]
+
+
+def hist_signature(specs, what, problem):
+    kinds = "none" if not specs else "+".join(coarse_kind(s) for s in specs)
     return "C20|history|%s|%s|ops=%s" % (what, problem, kinds)
 
 
-def shrink_history(ops, hist, table, what, problem):
-    def fails(h):
-        probs, _, _ = run_history(ops, h, table)
-        return any(w == what and p == problem for w, p, _ in probs)
-    cur = list(hist)
-    changed = True
-    while changed and len(cur) > 1:     # never to the empty history: pre-existing problems are filtered out before
-        changed = False
-        for i in range(len(cur)):
-            cand = cur[:i] + cur[i + 1:]
-            if fails(cand):
-                cur, changed = cand, True
-                break
-    return cur
+def is_subsequence(small, big):
+    it = iter(big)
+    return all(any(x == y for y in it) for x in small)
+
+
+class Nursery(object):
+    """Nursery side: every history in its own forked child; the first child is the empty history, whose
+    problems (wrong before any registration: the static part / the empty history report them) are not
+    reported again by the others."""
+
+    def __init__(self, tier, ws, menu=()):
+        self.menu = list(menu)
+        self.canonical = {}
+        self.thorough = tier == "thorough"
+        self.tier = tier
+        self.table = probe_table(self.thorough)
+        self.ids = id_table(self.thorough)
+        self.static_sp = set(s for s, _ in spellings(self.thorough))
+        self.ws = ws
+        self.base = isolated.fork_each([[]], lambda specs: run_history(specs, self.table, self.ids, ws))[0]
+        self.before_keys = set((w, d.get("spelling")) for w, _, d in self.base["problems"])
+        self.pristine = self.base["plain_after_restore"]
+        self.runs = 1
+
+    def run(self, histories):
+        """histories: lists of operation specs -> records"""
+        self.runs += len(histories)
+        return isolated.fork_each(histories, lambda specs: run_history(specs, self.table, self.ids, self.ws, self.pristine))
+
+    def relevant(self, specs, rec):
+        out, done = [], set()
+        for what, problem, detail in rec["problems"]:
+            if specs and (what, detail.get("spelling")) in self.before_keys:
+                continue        # wrong before any registration: reported by the empty history / static part
+            if not specs and what.startswith("validator_for") and detail.get("spelling") in self.static_sp:
+                continue        # the static part reports exactly this probe
+            if (what, problem) in done:
+                continue
+            done.add((what, problem))
+            out.append((what, problem, detail))
+        return out
+
+    def fails(self, specs, what, problem):
+        rec = self.run([specs])[0]
+        return any(w == what and p == problem for w, p, _ in self.relevant(specs, rec))
+
+    def shrink(self, specs, what, problem):
+        """Operations are deleted while the same problem shows; then each one is replaced by the first operation
+        of the menu of its sort (registration / lookup) with which it still shows, so that one defect is described
+        by few histories."""
+        cur = list(specs)
+        while True:
+            changed = True
+            while changed and len(cur) > 1:     # never to the empty history: pre-existing problems are filtered out before
+                changed = False
+                for i in range(len(cur)):
+                    cand = cur[:i] + cur[i + 1:]
+                    if self.fails(cand, what, problem):
+                        cur, changed = cand, True
+                        break
+            key = json.dumps([what, problem, cur])
+            if key in self.canonical:
+                return self.canonical[key]
+            start = list(cur)
+            for i in range(len(cur)):
+                for op in self.menu:
+                    if op == cur[i]:
+                        break
+                    if is_lookup(op) == is_lookup(cur[i]) and self.fails(cur[:i] + [op] + cur[i + 1:], what, problem):
+                        cur = cur[:i] + [op] + cur[i + 1:]
+                        break
+            self.canonical[key] = cur
+            if cur == start:
+                return cur
+
+    def violations(self, histories, records):
+        viol, shrunk = [], {}
+        for specs, rec in zip(histories, records):
+            for what, problem, detail in self.relevant(specs, rec):
+                # a shrunk history that failed the same way and is contained in this one: this one shrinks to it
+                small = next((s for s in shrunk.get((what, problem), []) if is_subsequence(s, specs)), None)
+                if small is None:
+                    small = self.shrink(specs, what, problem)
+                    shrunk.setdefault((what, problem), []).append(small)
+                viol.append({"signature": hist_signature(small, what, problem),
+                             "case": {"entry": "history", "tier": self.tier, "ops": small,
+                                      "what": what, "problem": problem},
+                             "detail": dict(detail, unshrunk=[s[0] for s in specs]),
+                             "size": len(small)})
+        return viol
+
+
+def nursery_histories(arg):
+    """Runs in the fresh interpreter (mc.explore.isolated.run): arg = dict(tier, menu, histories=[[op index]])."""
+    ops = MENUS[arg["menu"]]
+    histories = [[ops[j] for j in h] for h in arg["histories"]]
+    with Workspace(HIST_INSTANCES) as ws:
+        n = Nursery(arg["tier"], ws, ops)
+        records = n.run(histories)
+        viol = n.violations(histories, records)
+        return {"records": [{"canon": r["canon"], "takeover": r["takeover"], "probes": r["probes"],
+                             "differ": r["answers_differ_after_restore"]} for r in records],
+                "violations": viol, "children": n.runs}
+
+
+def nursery_replay(arg):
+    """arg = dict(tier, ops=[spec], what, problem)"""
+    with Workspace(HIST_INSTANCES) as ws:
+        n = Nursery(arg["tier"], ws)
+        rec = n.run([arg["ops"]])[0]
+        rel = n.relevant(arg["ops"], rec)
+        hit = [(w, p, d) for w, p, d in rel if w == arg["what"] and p == arg["problem"]]
+        return {"reproduced": bool(hit), "problems": [[w, p] for w, p, _ in rel][:10],
+                "detail": hit[0][2] if hit else None}
 
 
 # ------------------------------------------------------------------- plan ---
 def plan(ctx):
     sps = spellings(ctx.thorough)
-    ops = OPS_T if ctx.thorough else OPS_Q
-    depth = 4 if ctx.thorough else 3
+    mplan = menu_plan(ctx.thorough)
     units = []
     nb = len(BODIES)
     for i in range(len(sps)):
@@ -631,16 +1044,14 @@ def plan(ctx):
     for i in range(len(sps)):
         if ctx.thorough or sps[i][1] in ("absent", "registered-id"):
             units.extend(("pairs", i, k) for k in range(PAIR_CHUNKS))
-    units.append(("hist", 0, ()))          # the empty history: the registries as imported
-    for j in range(len(ops)):
-        if ctx.thorough:
-            for k in range(len(ops)):
-                units.append(("hist", depth, (j, k)))
-            units.append(("hist", 1, (j,)))
-        else:
-            units.append(("hist", depth, (j,)))
-    nh = sum(len(ops) ** n for n in range(0, depth + 1))
-    nstates = number_states(ops, depth)
+    per_menu = {}
+    for k, (menu, depth) in enumerate(mplan):
+        n = len(cached_histories(ctx.thorough, k))       # the first history of the first entry is the empty one
+        per_menu["%s(%d operations, length<=%d)" % (menu, len(MENUS[menu]), depth)] = n
+        units.extend(("hist", k, c) for c in range((n + UNIT_HISTORIES - 1) // UNIT_HISTORIES))
+    nh, nstates = number_states(mplan, ctx.thorough)
+    ops = OPS_T if ctx.thorough else OPS_Q
+    nreg = sum(1 for o in ops if not is_lookup(o))
     X = INSTANCES_T if ctx.thorough else INSTANCES_Q
     return {
         "units": units,
@@ -650,19 +1061,35 @@ def plan(ctx):
                  "{validator_for, validator_for(default=Draft3Validator / a sentinel), validate(), validate(cls=each of "
                  "4 drafts + an unregistered class), cli.run without and with --validator}; cases are distinct "
                  "by construction (product of alphabets whose members are pairwise different). histories: every "
-                 "sequence of length 0..%d over %d registration operations, each executed from a fresh snapshot of "
-                 "the real registries and probed with %d spellings + the name table + the behaviour behind every id; "
-                 "histories are distinct sequences. Non-trivial = a case on which at least two draft classes behave "
+                 "sequence of operations over a menu of %d registrations (the ways a class reaches validates(): "
+                 "create(version=), extend(version=), validates() on a create()d / an extend()ed class whose "
+                 "META_SCHEMA was reassigned%s, on a Python subclass of a draft class with / without its own "
+                 "META_SCHEMA, on a hand-written class, on an already registered class; each with a new id, an id "
+                 "that is already registered, or none) and %d lookups (validator_for over the whole table, validate() "
+                 "and the CLI over every id with / without '#', validator_for of single ids), %s; a sequence a deeper "
+                 "entry contains is not run twice. Each history runs in its own forked child of a fresh interpreter "
+                 "(nothing looked up, nothing registered before), on the real registries (snapshot, restore, "
+                 "restoration verified by identity of every entry), and is checked after its last operation - every "
+                 "prefix is a history of its own - with %d spellings x validator_for (3 default= variants) + the name "
+                 "table + validate() and the CLI behind every id the model holds, with / without '#'; what a lookup "
+                 "operation answers is checked too. Non-trivial = a case on which at least two draft classes behave "
                  "differently (measured: the four classes' outcomes for the body/instance are not all equal), or a "
-                 "history (every one changes a registry)" % (
+                 "non-empty history" % (
                      " and all unordered pairs of bodies merged into one schema" + (
                          "" if ctx.thorough else " (pairs: only for an absent $schema and the four ids as published)"),
-                     depth, len(ops), len(probe_table(ctx.thorough)))),
+                     nreg, " / modified in place" if ctx.thorough else "", len(ops) - nreg,
+                     "; ".join("length 0..%d over %s" % (d, "the whole menu" if len(MENUS[m]) == len(ops) else
+                                                         "%d of them [%s]" % (len(MENUS[m]), " | ".join(
+                                                             o[0] for o in MENUS[m])))
+                               for m, d in mplan),
+                     len(probe_table(ctx.thorough)))),
         "bounds": {"tier": ctx.tier, "spellings": len(sps), "bodies": nb, "instances": len(X),
                    "explicit_classes": len(EXPLICIT), "cli_validator_options": len(CLI_VALIDATORS),
-                   "history_operations": len(ops), "history_depth_unmerged": depth, "histories": nh,
+                   "history_registration_operations": nreg, "history_lookup_operations": len(ops) - nreg,
+                   "history_menus": per_menu, "histories": nh,
                    "distinct_canonical_registry_states_in_model": nstates,
-                   "probe_spellings_per_history": len(probe_table(ctx.thorough))},
+                   "probe_spellings_per_history": len(probe_table(ctx.thorough)),
+                   "ids_per_lookup_operation": len(id_table(ctx.thorough))},
         "assumptions": [
             "dict model of the documented rule: key = URI with one empty fragment removed and the scheme lower-cased; "
             "last registration under a key wins",
@@ -670,6 +1097,11 @@ def plan(ctx):
             "does not decide them",
             "extend(DraftN, version=...) re-registers DraftN's metaschema id for the extension: modelled as "
             "'last registration wins' and counted (shared_id_takeover_histories), not judged",
+            "a class's own metaschema id is ID_OF(META_SCHEMA) of the class at the moment validates() is applied to "
+            "it (known from what the operation built, never asked of the implementation)",
+            "what validator_for answers after the registries were put back to their snapshot is compared with the "
+            "pristine answers and counted (answers_differ_after_restore), not judged: the property does not "
+            "speak of un-registering",
             "only string values of $schema (the property speaks of URIs and non-URI strings)",
         ],
     }
@@ -831,56 +1263,41 @@ def run_unit(unit, ctx):
                                                          "validator": vname, "instances": ws.instances},
                                                 "detail": detail, "size": 3})
     else:
-        _, depth, prefix = unit
-        ops = OPS_T if thorough else OPS_Q
-        table = probe_table(thorough)
+        _, k, chunk = unit
+        mplan = menu_plan(thorough)
+        menu = mplan[k][0]
+        ops = MENUS[menu]
+        hists = cached_histories(thorough, k)[chunk * UNIT_HISTORIES:(chunk + 1) * UNIT_HISTORIES]
+        r = isolated.run("mc.props.c20", "nursery_histories",
+                         {"tier": ctx.tier, "menu": menu, "histories": [list(h) for h in hists]})
         canon_seen = set()
-        takeovers = 0
-        static_sp = set(kinds)
-        snap0 = snapshot()
-        before = [(w, p, d.get("spelling")) for w, p, d in probe_state(Model(), table)]
-        before_keys = set((w, sp) for w, _, sp in before)
-        for n in range(0, depth - len(prefix) + 1):
-            for rest in itertools.product(range(len(ops)), repeat=n):
-                hist = tuple(prefix) + rest
-                probs, cs, takeover = run_history(ops, hist, table)
-                res["ev"] += 1
-                res["nt"] += 1 if hist else 0
-                res["traces"] += 1
-                transitions += 1 if hist else 0     # the last operation of this history, probed in full
-                if FIRST_HISTORY.get(cs) == hist:     # each canonical state is counted by exactly one history
-                    canon_seen.add(cs)
-                takeovers += 1 if takeover else 0
-                oc = "history:%d-ops:%s" % (len(hist), "draft-id-taken-over" if takeover else "draft-ids-kept")
+        takeovers = differ = 0
+        for hist, rec in zip(hists, r["records"]):
+            cs = harness.as_tuples(rec["canon"])
+            res["ev"] += 1
+            res["nt"] += 1 if hist else 0
+            res["traces"] += 1
+            transitions += 1 if hist else 0     # the last operation of this history, checked in full
+            if FIRST_HISTORY.get(cs) == (k, hist):     # each canonical state is counted by exactly one history
+                canon_seen.add(cs)
+            takeovers += 1 if rec["takeover"] else 0
+            differ += 1 if rec["differ"] else 0
+            oc = "history:%d-ops:%s" % (len(hist), "draft-id-taken-over" if rec["takeover"] else "draft-ids-kept")
+            res["outcomes"][oc] = res["outcomes"].get(oc, 0) + 1
+            if hist:
+                oc = "history-ending-with:%s" % coarse_kind(ops[hist[-1]])
                 res["outcomes"][oc] = res["outcomes"].get(oc, 0) + 1
-                res["counters"]["probes"] = res["counters"].get("probes", 0) + len(table) * 3 + len(cs[1])
-                done = set()
-                for what, problem, detail in probs:
-                    if hist and (what, detail.get("spelling")) in before_keys:
-                        continue        # wrong before any registration: reported by the empty history / static part
-                    if not hist and what.startswith("validator_for") and detail.get("spelling") in static_sp:
-                        continue        # the static part reports exactly this probe
-                    if (what, problem) in done:
-                        continue
-                    done.add((what, problem))
-                    small = shrink_history(ops, list(hist), table, what, problem)
-                    res["viol"].append({"signature": hist_signature(ops, small, what, problem),
-                                        "case": {"entry": "history", "tier": ctx.tier,
-                                                 "ops": [ops[j][0] for j in small], "op_indexes": small,
-                                                 "what": what, "problem": problem},
-                                        "detail": dict(detail, unshrunk=[ops[j][0] for j in hist]),
-                                        "size": len(small)})
-                if len(res["samples"]) < 2 and hist and len(hist) == depth and hist[-1] == 3:
-                    res["samples"].append({"history": [ops[j][0] for j in hist],
-                                           "model_ids": {k: v for k, v in cs[1]}})
-        # restoration: same registry contents (identity of every class) and same answers to every probe
-        snap1 = snapshot()
-        after = [(w, p, d.get("spelling")) for w, p, d in probe_state(Model(), table)]
-        same = all(set(a) == set(b) and all(a[k] is b[k] for k in a) for a, b in zip(snap0, snap1))
-        if not same or after != before:
-            raise RuntimeError("registries not restored after the histories: %r / %r" % (before[:2], after[:2]))
-        res["counters"]["restorations_verified"] = 1
+            res["counters"]["probes"] = res["counters"].get("probes", 0) + rec["probes"]
+            if len(res["samples"]) < 1 and len(hist) == mplan[k][1] and not is_lookup(ops[hist[-1]]) \
+                    and is_lookup(ops[hist[-2]]):
+                res["samples"].append({"history": [ops[j][0] for j in hist],
+                                       "model_ids": {key: v for key, v in cs[1]}})
+        res["viol"].extend(r["violations"])
+        # every child has put the registries back and verified it (identity of every entry) before answering
+        res["counters"]["restorations_verified"] = len(hists)
+        res["counters"]["pristine_children"] = r["children"]
         res["counters"]["shared_id_takeover_histories"] = takeovers
+        res["counters"]["answers_differ_after_restore"] = differ
         states = len(canon_seen)
     counters = dict(res["counters"])
     counters.update({"states": states, "transitions": transitions, "traces_validated_against_impl": res["traces"]})
@@ -892,12 +1309,8 @@ def replay(case, ctx):
     model = Model()
     entry = case["entry"]
     if entry == "history":
-        thorough = case.get("tier") == "thorough"
-        ops = OPS_T if thorough else OPS_Q
-        probs, cs, _ = run_history(ops, case["op_indexes"], probe_table(thorough))
-        hit = [(w, p, d) for w, p, d in probs if w == case["what"] and p == case["problem"]]
-        return {"reproduced": bool(hit), "problems": [(w, p) for w, p, _ in probs][:10],
-                "detail": hit[0][2] if hit else None}
+        return isolated.run("mc.props.c20", "nursery_replay", {"tier": case.get("tier", "quick"), "ops": case["ops"],
+                                                               "what": case["what"], "problem": case["problem"]})
     schema = case["schema"]
     if entry.startswith("validator_for"):
         probs = [p for p in check_selection(model, schema) if p[0] == entry]
